@@ -388,7 +388,36 @@ def r6(idx, rep):
     rep.check(w == [("self.stopped", "True")], "R6", f"{fs.file}::CsvPath.stop", f"stores {w}", K.where(fs, fs.node))
 
 
+def advance_sequence(idx, rep, rid):
+    """advance(n) asks for n lines each time it fires, with the value its argument has *then*: Advance._decide_match interpreted on one
+    instance (state as __init__ leaves it) over a sequence of firings with argument values 2, 3, 1, '4'"""
+    fi = idx.method("Advance", "_decide_match")
+    rep.analysed(fi)
+    vals = [2, 3, 1, "4"]
+    cur = {}
+
+    def program(it):
+        out = []
+        for v in vals:
+            cur["v"] = v
+            it.store["self.match"] = None
+            it.call_function(fi, {"skip": []}, "self")
+            out.append(it.store.get("self.matcher.csvpath.advance_count"))
+        return out
+
+    st = K.instance_store(idx, "Advance")
+    st.update({"self.children": [Obj("arg")]})
+    it = Interp(idx, types={"self": "Advance"}, unknown_calls="residual",
+                handlers={"arg.to_value": lambda i, c, r, a, k: cur["v"], "self.to_value": lambda i, c, r, a, k: None, "self.default_match": lambda i, c, r, a, k: True,
+                          "self._child_one": lambda i, c, r, a, k: Obj("arg")})
+    ps = it.run_program(program, st)
+    want = [int(v) for v in vals]
+    ok = len(ps) == 1 and ps[0].result == ("return", want)
+    rep.check(ok, rid, f"{fi.file}::Advance._decide_match sequence", f"argument values {vals} over four firings: advance_count becomes {[p.result for p in ps][:2]}, documented {want}", K.where(fi, fi.node))
+
+
 def r7(idx, rep):
+    advance_sequence(idx, rep, "R7")
     # Skipper._skip_me
     fi = idx.method("Skipper", "_skip_me")
     rep.analysed(fi)
